@@ -234,20 +234,45 @@ def advance_shape(cx):
         return
     cx.check(len(pops) == 1, "pop", "advance pops the queue at one site")
     pos = None
+    counter = None
+
+    def enum_elem(e):
+        """(queue.iter().enumerate().next() as Some).0.1 -> the `next` call"""
+        if e[0] == "deref":
+            e = e[1]
+        if e[0] == "tfield" and e[2] == 1 and e[1][0] == "vfield" and e[1][1][0] == "call" and "Enumerate" in e[1][1][1] and e[1][1][1].endswith("::next"):
+            return e[1]
+        return None
+
+    def matched(l):
+        """the search slot folded away (the release sits on the path of the match itself): `element == ctx` holds"""
+        if not (l[0] == "is" and l[2] is True):
+            return None
+        v = l[1]
+        ops = v[2:] if v[0] == "bin" and v[1] == "Eq" else (v[2] if v[0] == "call" and "PartialEq" in v[1] else ())
+        if not any(x[0] == "param" for o in ops for x in walk(o)):
+            return None
+        for o in ops:
+            for x in walk(o):
+                if enum_elem(x) is not None:
+                    return enum_elem(x)
+        return None
     for c in pops:
         def found(l):
-            return l[0] == "in" and l[2] == frozenset(["Some"]) and ctx_slot(l[1])
+            return (l[0] == "in" and l[2] == frozenset(["Some"]) and ctx_slot(l[1])) or matched(l) is not None
         require(cx, c, cx.site_key(c, "found"), "requests are released only if the acknowledged context is in the queue", found, kill=False)
         for l in cx.guard_lits(c):
-            if found(l):
+            if l[0] == "in" and found(l):
                 pos = l[1]
-    cx.check(pos is not None, "position", "the position of the context in the queue is looked up (iter().position(..) or an enumerate loop that stops at the match)")
+            elif matched(l) is not None:
+                counter = ("tfield", matched(l), 0)
+    cx.check(pos is not None or counter is not None, "position", "the position of the context in the queue is looked up (iter().position(..) or an enumerate loop that stops at the match)")
     # the loop runs 0..=position
     rng = [c for c in cx.prog.all_calls if c.fn is f and c.data["callee"].endswith("RangeInclusive::new")]
     ok = len(rng) == 1
     if ok:
         a = call_args(cx, rng[0])
-        ok = a[0] == ("int", 0) and a[1][0] == "vfield" and a[1][1] == pos
+        ok = a[0] == ("int", 0) and ((a[1][0] == "vfield" and a[1][1] == pos) or (counter is not None and a[1] == counter))
     cx.check(ok, "range", "exactly the requests up to and including the acknowledged one are released (0..=position)")
     rm = [c for c in cx.prog.all_calls if c.fn is f and c.data["callee"].endswith("HashMap::remove")]
     cx.check(len(rm) == 1 and contains(call("~VecDeque::pop_front", ANY), call_args(cx, rm[0])[1]), "remove", "each released request is removed from the pending map by the popped context")
